@@ -10,7 +10,7 @@ RGB_DTYPE = np.dtype([("R", "u1"), ("G", "u1"), ("B", "u1")])
 
 
 def write_nifti(path, raw, affine, slope=None, inter=None,
-                big_endian=False, xyz_units=None):
+                big_endian=False, xyz_units=None, xforms=None):
     """raw: array in nibabel (Fortran, X,Y,Z[,T]) index order with the stored
     dtype (or RGB_DTYPE).  The header scaling fields are patched in place so
     that the stored values stay exactly `raw`.  big_endian writes a
@@ -38,6 +38,36 @@ def write_nifti(path, raw, affine, slope=None, inter=None,
             f.seek(112)
             f.write(struct.pack(">ff" if big_endian else "<ff", slope,
                                 0.0 if inter is None else inter))
+    if xforms:
+        # which of the two coordinate systems of the header carries the
+        # affine (the header fields are patched in place):
+        #   both_same    qform_code > 0 too, describing (nearly) the same
+        #   both_differ  qform_code > 0 with ANOTHER placement (scanner space
+        #                next to a template-space sform); the sform counts
+        #   qform_only   sform_code = 0, the (shear-free) qform counts
+        e = ">" if big_endian else "<"
+        A = np.asarray(affine, dtype=float)
+        B = A.copy()
+        if xforms == "both_differ":
+            B = A @ np.diag([-1.0, 1.0, 1.0, 1.0])
+            B[:3, 3] = A[:3, 3] + [7.0, -11.0, 4.5]
+        h = nib.Nifti1Header()
+        h.set_data_shape(raw.shape if raw.dtype != RGB_DTYPE else raw.shape)
+        h.set_qform(B, code=1)
+        with open(plain, "r+b") as f:
+            f.seek(76)
+            f.write(struct.pack(e + "f", float(h["pixdim"][0])))
+            if xforms == "qform_only":
+                f.seek(80)
+                f.write(struct.pack(e + "3f", *[float(v) for v in
+                                                h["pixdim"][1:4]]))
+            f.seek(252)
+            f.write(struct.pack(e + "hh", 1,
+                                0 if xforms == "qform_only" else 2))
+            f.write(struct.pack(e + "6f", float(h["quatern_b"]),
+                                float(h["quatern_c"]), float(h["quatern_d"]),
+                                float(h["qoffset_x"]), float(h["qoffset_y"]),
+                                float(h["qoffset_z"])))
     if path.endswith(".gz"):
         with open(plain, "rb") as f, gzip.open(path, "wb") as g:
             g.write(f.read())
